@@ -172,7 +172,8 @@ class CutplaceApp(object):
                     rows_to_validate = itertools.islice(rows_to_validate, self.validate_until)
                 for _ in rows_to_validate:
                     pass
-            _log.info("  accepted %d rows", reader.accepted_rows_count)
+            # With "--until 0" not a single row is asked for, so the reader never started counting.
+            _log.info("  accepted %d rows", reader.accepted_rows_count or 0)
         except errors.CutplaceError as error:
             _log.error("  %s", error)
             self.all_validations_were_ok = False
